@@ -4,11 +4,11 @@
 #  the patch, the existing tests of the touched area still pass with the patch.
 export GOFLAGS=-mod=mod GOPROXY=off GOSUMDB=off GOTOOLCHAIN=local
 WT=/tmp/wt_verify
-OUT=/verif/seeded/verify_results.txt
+OUT=${2:-/verif/seeded/verify_results.txt}
 : > $OUT
 git -C /repo worktree remove --force $WT 2>/dev/null
 git -C /repo worktree add -q --detach $WT HEAD || exit 1
-for d in /verif/seeded/*/; do
+for d in /verif/seeded/${1:-*}/; do
   s=$(basename $d)
   [ -f $d/patch.diff ] || continue
   demo=$(ls $d/*_test.go | head -1)
@@ -22,8 +22,10 @@ for d in /verif/seeded/*/; do
   b=$(go build ./... 2>&1 | tail -1)
   r1=$(go test -vet=off -count=1 -run "^($run)\$" $pkg 2>&1 | grep -E "^(ok|FAIL|---)" | tail -1)
   rm -f $WT/$dpath
-  r2=$(TMPDIR=/tmp/tmp_verify_seeds HOME=/tmp/home_verify_seeds go test -vet=off -count=1 ./ledger/... ./ctrlers/account/... ./ctrlers/stake/... ./ctrlers/types/... ./ctrlers/vm/... ./node/... ./types/... 2>&1 | grep -E "^(FAIL|---)" | head -3 | tr '\n' ' ')
-  echo "$s: demo_on_unchanged=[$r0] build=[$b] demo_with_patch=[$r1] existing_tests_failures=[$r2]" >> $OUT
+  t2=$(TMPDIR=/tmp/tmp_verify_seeds HOME=/tmp/home_verify_seeds GOPATH=/root/go GOMODCACHE=/root/go/pkg/mod GOCACHE=/root/.cache/go-build go test -vet=off -count=1 ./ledger/... ./ctrlers/account/... ./ctrlers/stake/... ./ctrlers/types/... ./ctrlers/vm/... ./node/... ./types/... 2>&1)
+  r2=$(echo "$t2" | grep -E "^(FAIL|---|panic)" | head -3 | tr '\n' ' ')
+  nok=$(echo "$t2" | grep -c "^ok")
+  echo "$s: demo_on_unchanged=[$r0] build=[$b] demo_with_patch=[$r1] existing_tests: ok_packages=$nok failures=[$r2]" >> $OUT
 done
 cd /; git -C /repo worktree remove --force $WT
 rm -rf /tmp/tmp_verify_seeds /tmp/home_verify_seeds
